@@ -58,30 +58,36 @@ def handle (s : Session) (p : Recv) : Session × Except Err Bool :=
   let (d, rt, r) := handlePacket s.data s.rt p
   ({ s with data := d, rt := rt }, r)
 
+/-- What the CONNACK property loop accumulates: send quota, max send quota, Maximum QoS, Maximum
+Packet Size, keep-alive (ms), assigned client identifier. -/
+abbrev ConnackAcc := Nat × Nat × Option Nat × Option Nat × Nat × Option Bytes
+
+/-- One iteration of the CONNACK property loop of `connect_handshake`. -/
+def connackStep (localQ : Nat) (acc : Except Err ConnackAcc) (item : Option Property) : Except Err ConnackAcc :=
+  match acc with
+  | .error e => .error e
+  | .ok (sq, msq, mq, mps, ka, cid) =>
+    match item with
+    | none => .error Err.peerInvalid
+    | some p =>
+      match p.kind, p.val with
+      | .MaximumPacketSize, .n v => .ok (sq, msq, mq, some v, ka, cid)
+      | .AssignedClientIdentifier, .s bs =>
+        if bs.length > CLIENT_ID_CAPACITY then .error Err.peerInvalid
+        else .ok (sq, msq, mq, mps, ka, some bs)
+      | .ServerKeepAlive, .n v => .ok (sq, msq, mq, mps, v * 1000, cid)
+      | .ReceiveMaximum, .n v =>
+        if v = 0 then .error Err.peerInvalid else .ok (min v localQ, min v localQ, mq, mps, ka, cid)
+      | .MaximumQoS, .n v => if v > 2 then .error Err.peerInvalid else .ok (sq, msq, some v, mps, ka, cid)
+      | _, _ => .ok (sq, msq, mq, mps, ka, cid)
+
 /-- CONNACK processing after a successful reason code (`connect_handshake`, second half): reset for a
 fresh session, the property loop, activation. On a property error the session is disconnected. -/
 def activate (s : Session) (sp : Bool) (block : Bytes) (now : Nat) : Session × Except Err Unit :=
   let s := if !sp then { s with data := s.data.reset } else s
   let localQ := Outbound.maxInflight
-  let step := fun (acc : Except Err (Nat × Nat × Option Nat × Option Nat × Nat × Option Bytes))
-      (item : Option Property) =>
-    match acc with
-    | .error e => .error e
-    | .ok (sq, msq, mq, mps, ka, cid) =>
-      match item with
-      | none => .error Err.peerInvalid
-      | some p =>
-        match p.kind, p.val with
-        | .MaximumPacketSize, .n v => .ok (sq, msq, mq, some v, ka, cid)
-        | .AssignedClientIdentifier, .s bs =>
-          if bs.length > CLIENT_ID_CAPACITY then .error Err.peerInvalid
-          else .ok (sq, msq, mq, mps, ka, some bs)
-        | .ServerKeepAlive, .n v => .ok (sq, msq, mq, mps, v * 1000, cid)
-        | .ReceiveMaximum, .n v =>
-          if v = 0 then .error Err.peerInvalid else .ok (min v localQ, min v localQ, mq, mps, ka, cid)
-        | .MaximumQoS, .n v => if v > 2 then .error Err.peerInvalid else .ok (sq, msq, some v, mps, ka, cid)
-        | _, _ => .ok (sq, msq, mq, mps, ka, cid)
-  match (iterEncoded block).foldl step (.ok (localQ, localQ, none, none, s.rt.configuredKeepaliveMs, none)) with
+  match (iterEncoded block).foldl (connackStep localQ)
+      (.ok (localQ, localQ, none, none, s.rt.configuredKeepaliveMs, none)) with
   | .error e => (s.handleDisconnect, .error e)
   | .ok (sq, msq, mq, mps, ka, cid) =>
     let rt := s.rt
